@@ -251,8 +251,9 @@ Proof.
   intros Hs. unfold generate_nsec3s.
   set (excl := opt_out_flag c && c_excl c). set (gs := groups (skip_before apex z)).
   pose proof (n3_loop_np excl gs None [] [] false [] (Forall_nil _)) as Hnp.
-  destruct (n3_loop H apex c excl gs None [] [] false []) as [[[acc ents] ttl]| | |] eqn:E; cbn [bind];
-    try exact I; try first [exact Hnp | rewrite E in Hnp; exact Hnp].
+  revert Hnp.
+  destruct (n3_loop H apex c excl gs None [] [] false []) as [[[acc ents] ttl]| | |] eqn:E; intros Hnp; cbn [bind];
+    try exact I; try exact Hnp; try exact (eq_ind _ (fun o => no_panic o) Hnp _ E).
   destruct ttl; cbn [negb]; [|exact I].
   pose proof (n3_loop_ttl _ _ _ _ _ _ _ _ _ _ E eq_refl) as [X|Hacc]; [discriminate|].
   pose proof E as E'. apply n3_loop_spec in E' as (l & Hl & Hacc' & Hents). rewrite app_nil_r in Hacc'.
@@ -262,7 +263,8 @@ Proof.
              | e :: es' => do p <- mk_pre H c e []; do ps <- go es'; Ok (p :: ps)
              end) ents) with (ent_recs H c ents).
   pose proof (ent_recs_np ents) as Hnp2.
-  destruct (ent_recs H c ents) as [er| | |] eqn:Eer; cbn [bind]; try exact I; try first [exact Hnp2 | rewrite Eer in Hnp2; exact Hnp2].
+  revert Hnp2.
+  destruct (ent_recs H c ents) as [er| | |] eqn:Eer; intros Hnp2; cbn [bind]; try exact I; try exact Hnp2.
   change (no_panic (finish3 (rev acc ++ er))).
   rewrite Hacc', rev_involutive.
   assert (Hl0 : l <> []) by (intros ->; apply Hacc; rewrite Hacc'; reflexivity).
